@@ -44,7 +44,21 @@ class C04(Prop):
         # consuming cases after 50 failures, known or not), everything else scales with the budget
         n_tree = budget * 2 // 3
         edge_left, by_id_left, disc_edge_left = 12, 12, 8
-        for i in range(n_tree):
+        # 1. every named class of the audit, round-robin (docs/audit_C04.md), alternating the sequence flags
+        rounds = 5 if tier == "quick" else 60
+        n_cls = 0
+        for rnd in range(rounds):
+            for ci, cls in enumerate(TF.CLASSES):
+                if cls.endswith("!") and rnd >= 2:
+                    continue
+                spec, mv = TF.gen_class(rng, cls, tier)
+                args = {"spec": spec, "main_variant": mv, "cls": cls}
+                if not cls.endswith("!"):
+                    args["seq"] = self.gen_seq(rng, spec, (rnd + ci) % 6)
+                n_cls += 1
+                yield {"op": "tree", "args": args}
+        # 2. random trees
+        for i in range(max(0, n_tree - n_cls)):
             if edge_left and rng.random() < 0.04:
                 edge_left -= 1
                 yield self.edge_tree(rng, tier)
@@ -55,13 +69,37 @@ class C04(Prop):
             spec, mv = TF.gen(rng, tier, dashed_by_id=by_id)
             if any(v["key"] != v["uid"] for v in spec["variants"]):
                 by_id_left -= 1
-            yield {"op": "tree", "args": {"spec": spec, "main_variant": mv}}
-        for i in range(budget - n_tree):
+            args = {"spec": spec, "main_variant": mv}
+            if rng.random() < 0.4:
+                args["seq"] = self.gen_seq(rng, spec, rng.randrange(6))
+            yield {"op": "tree", "args": args}
+        # 3. discinfo: every pool entry round-robin, then random
+        n_disc = budget - max(n_tree, n_cls)
+        for i in range(n_disc):
             spec = DF.gen(rng, tier)
-            if disc_edge_left and rng.random() < 0.06:
+            if i < len(DF.DESCRIPTIONS):
+                spec["description"] = DF.DESCRIPTIONS[i]
+            elif i < len(DF.DESCRIPTIONS) + len(DF.DISC_POOL):
+                spec["disc_numbers"] = list(DF.DISC_POOL[i - len(DF.DESCRIPTIONS)])
+            elif i < len(DF.DESCRIPTIONS) + len(DF.DISC_POOL) + len(DF.SIMPLE_TS):
+                spec["timestamp"] = {"$float": repr(DF.SIMPLE_TS[i - len(DF.DESCRIPTIONS) - len(DF.DISC_POOL)])}
+            elif disc_edge_left and rng.random() < 0.06:
                 disc_edge_left -= 1
                 spec["description"] = rng.choice([" padded ", "trailing ", "\"one-sided", "it's'", "\tx"])
-            yield {"op": "disc", "args": {"spec": spec}}
+            args = {"spec": spec}
+            if i % 3 == 0:
+                args["seq"] = {"readonly": True, "interleave": i % 2 == 0, "repeat": True}
+            yield {"op": "disc", "args": args}
+
+    def gen_seq(self, rng, spec, k):
+        """what else happens to the object around the dump (docs/GENERATOR_AUDIT.md section B)"""
+        seq = {"style": k % 2, "interleave": k in (1, 4), "readonly": k in (0, 2, 3), "repeat": True}
+        if k == 2:
+            seq["fail_first"] = rng.choice(["abs-stage2", "media-half", "abs-checksum", "abs-image", "layered-no-base"])
+        if k in (3, 4):
+            seq["update"] = TF.gen_update(rng, spec)
+            seq["update_when"] = "before-load" if k == 3 else "after-load"
+        return seq
 
     def edge_tree(self, rng, tier):
         """regions where the proof needs a hypothesis the quantifier does not obviously grant"""
@@ -89,12 +127,23 @@ class C04(Prop):
             except Exception as e:  # noqa
                 return {"err": type(e).__name__}
         if case["op"] == "disc":
+            seq = a.get("seq") or {}
+            pre = {}
             try:
                 di = DF.build(a["spec"])
+                if seq.get("interleave"):
+                    TF.guarded(DF.dumps, DF.build(dict(a["spec"], description="decoy", disc_numbers=["ALL"])))
+                if seq.get("readonly"):
+                    TF.guarded(di.validate)
                 text = DF.dumps(di)
+                if seq.get("repeat"):
+                    pre["dump_twice_same"] = DF.dumps(di) == text
+                    pre["state_after_dump_ok"] = checklib.canon(DF.snap(di)) == checklib.canon(a["spec"])
             except Exception as e:  # noqa
                 return {"dump": {"err": TF.err_name(e)}}
             out = {"dump": {"ok": text}}
+            if pre:
+                out["pre"] = pre
             try:
                 d2 = DF.loads(text)
                 out["load"] = {"ok": DF.snap(d2)}
@@ -102,11 +151,36 @@ class C04(Prop):
             except Exception as e:  # noqa
                 out["load"] = {"err": TF.err_name(e)}
             return out
+        seq = a.get("seq") or {}
+        mv = a.get("main_variant")
         try:
-            ti = TF.build(a["spec"])
+            ti = TF.build(dict(a["spec"], _style=seq.get("style", 0)))
         except Exception as e:  # noqa
             return {"build": {"err": TF.err_name(e)}}
-        out = {"dump": TF.guarded(TF.dumps, ti, a.get("main_variant"))}
+        pre = {}
+        want0 = checklib.canon(TF.canon_spec(a["spec"]))
+        if seq.get("interleave"):
+            # another object built, written and read in between: no state may leak between objects
+            decoy = TF.build(self.decoy_spec())
+            dtext = TF.guarded(TF.dumps, decoy, None)
+            if "ok" in dtext:
+                TF.guarded(TF.loads, dtext["ok"])
+        if seq.get("readonly"):
+            TF.read_only_calls(ti)
+        if seq.get("fail_first"):
+            pre["failed_first"] = self.fail_then_repair(ti, seq["fail_first"], mv)
+        if seq:
+            pre["state_ok"] = checklib.canon(TF.snap(ti)) == want0
+        out = {"dump": TF.guarded(TF.dumps, ti, mv)}
+        if seq.get("repeat") and "ok" in out["dump"]:
+            pre["dump_twice_same"] = TF.guarded(TF.dumps, ti, mv) == out["dump"]
+            pre["state_after_dump_ok"] = checklib.canon(TF.snap(ti)) == want0
+        if seq.get("update") and seq.get("update_when") == "before-load" and "ok" in out["dump"]:
+            pre["first_dump"] = out["dump"]["ok"]
+            TF.apply_update(ti, seq["update"])
+            out["dump"] = TF.guarded(TF.dumps, ti, mv)
+        if pre:
+            out["pre"] = pre
         if "ok" not in out["dump"]:
             return out
         text = out["dump"]["ok"]
@@ -115,9 +189,51 @@ class C04(Prop):
             t2 = TF.loads(text)
             out["load"] = {"ok": TF.snap(t2)}
             out["dump2"] = TF.guarded(TF.dumps, t2, a.get("main_variant"))
+            if seq.get("update") and seq.get("update_when") == "after-load":
+                TF.apply_update(t2, seq["update"])
+                out["dump3"] = TF.guarded(TF.dumps, t2, mv)
+                if "ok" in out["dump3"]:
+                    out["doc3"] = TF.guarded(TF.read_ini, out["dump3"]["ok"])
+                    out["load3"] = TF.guarded(lambda: TF.snap(TF.loads(out["dump3"]["ok"])))
         except Exception as e:  # noqa
             out["load"] = {"err": TF.err_name(e)}
         return out
+
+    _decoy = None
+
+    def decoy_spec(self):
+        if C04._decoy is None:
+            import random
+            C04._decoy = TF.gen_class(random.Random(7), "deep-all-child-types")[0]
+        return C04._decoy
+
+    def fail_then_repair(self, ti, kind, mv):
+        """make the object invalid, let the dump fail, repair: the later dump must be the one of the original object"""
+        undo = None
+        if kind == "abs-stage2":
+            old = ti.stage2.mainimage
+            ti.stage2.mainimage = "/abs/stage2"
+            undo = lambda: setattr(ti.stage2, "mainimage", old)
+        elif kind == "media-half":
+            old = (ti.media.discnum, ti.media.totaldiscs)
+            ti.media.discnum, ti.media.totaldiscs = 1, None
+            undo = lambda: (setattr(ti.media, "discnum", old[0]), setattr(ti.media, "totaldiscs", old[1]))
+        elif kind == "abs-checksum":
+            ti.checksums.checksums["/abs/path"] = ("md5", "0")
+            undo = lambda: ti.checksums.checksums.pop("/abs/path")
+        elif kind == "abs-image" and ti.images.images:
+            p = sorted(ti.images.images)[0]
+            ti.images.images[p]["__abs__"] = "/abs/image"
+            undo = lambda: ti.images.images[p].pop("__abs__")
+        elif kind == "layered-no-base" and not ti.release.is_layered and ti.base_product.name is None:
+            ti.release.is_layered = True
+            undo = lambda: setattr(ti.release, "is_layered", False)
+        if undo is None:
+            return "skipped"
+        r = TF.guarded(TF.dumps, ti, mv)
+        undo()
+        return r.get("err", "no-error")
+
 
     # ------------------------------------------------------------------ model side
     def model_requests(self, case):
@@ -126,10 +242,33 @@ class C04(Prop):
             return []
         if case["op"] == "disc":
             return [{"op": "di_cycle", "args": {"spec": DF.model_spec(a["spec"]), "floats": DF.floats_for(a["spec"])}}]
-        return [{"op": "ti_cycle", "args": {"spec": a["spec"], "main_variant": a.get("main_variant"), "floats": TF.floats_for(a["spec"])}}]
+        eff = self.effective(case)
+        reqs = [{"op": "ti_cycle", "args": {"spec": TF.model_tree_spec(eff), "main_variant": a.get("main_variant"), "floats": TF.floats_for(eff)}}]
+        e2 = self.effective_after_load(case)
+        if e2 is not None:
+            reqs.append({"op": "ti_cycle", "args": {"spec": TF.model_tree_spec(e2), "main_variant": a.get("main_variant"), "floats": TF.floats_for(e2)}})
+        return reqs
+
+    def effective(self, case):
+        """the spec the checked dump is the dump of (after an in-place update before the load, if any)"""
+        a = case["args"]
+        seq = a.get("seq") or {}
+        if seq.get("update") and seq.get("update_when") == "before-load":
+            return TF.apply_update_spec(a["spec"], seq["update"])
+        return a["spec"]
+
+    def effective_after_load(self, case):
+        a = case["args"]
+        seq = a.get("seq") or {}
+        if seq.get("update") and seq.get("update_when") == "after-load":
+            return TF.apply_update_spec(TF.norm_spec(a["spec"]), seq["update"])
+        return None
 
     def model_result(self, case, outs):
-        return outs[0]
+        o = outs[0]
+        if len(outs) > 1 and isinstance(o, dict):
+            o = dict(o, second=outs[1])
+        return o
 
     def compare(self, case, real_out, model_out):
         if "build" in real_out:
@@ -149,6 +288,8 @@ class C04(Prop):
                 m["load"] = TF.canon_spec(ml["ok"], with_parent=False) if "ok" in ml else ml
                 if "ok" in rl:
                     r["dump2"], m["dump2"] = real_out.get("dump2"), model_out.get("dump2")
+                if "dump3" in real_out and "second" in model_out:
+                    r["dump3"], m["dump3"] = real_out["dump3"], model_out["second"].get("dump")
                 # assumptions about the reader, validated on this document
                 mld = model_out.get("load_doc") or {}
                 r["reader: load via text = load via document"] = True
@@ -183,6 +324,12 @@ class C04(Prop):
         a = case["args"]
         text = real_out["dump"]["ok"]
         load = real_out.get("load", {})
+        pre = real_out.get("pre") or {}
+        for flag, kind, req in (("state_ok", "state-changed", "building, read-only calls, a failed dump and another object in between leave the facts as put in"),
+                                ("dump_twice_same", "repeat-dump-differs", "the same dump twice gives the same bytes"),
+                                ("state_after_dump_ok", "dump-mutates", "a dump does not change the facts of the object")):
+            if pre.get(flag) is False:
+                return {"observed": {flag: False, "seq": dict((k, v) for k, v in (a.get("seq") or {}).items() if k != "update")}, "required": req, "kind": kind}
         if "ok" not in load:
             return {"observed": {"dumps": text, "loads": load}, "required": "the written file can be read back", "kind": "reload-refused"}
         if case["op"] == "disc":
@@ -190,7 +337,8 @@ class C04(Prop):
             if checklib.canon(load["ok"]) != checklib.canon(want):
                 return {"observed": load["ok"], "required": want, "kind": "facts-differ"}
         else:
-            want = TF.canon_spec(TF.norm_spec(a["spec"]))
+            eff = self.effective(case)
+            want = TF.canon_spec(TF.norm_spec(eff))
             if checklib.canon(load["ok"]) != checklib.canon(want):
                 diff = [k for k in want if checklib.canon(load["ok"].get(k)) != checklib.canon(want.get(k))]
                 return {"observed": dict((k, load["ok"].get(k)) for k in diff), "required": dict((k, want.get(k)) for k in diff),
@@ -202,10 +350,28 @@ class C04(Prop):
             if "ok" not in doc:
                 return {"observed": {"independent reader": doc, "text": text}, "required": "sections of `key = value` lines", "kind": "file-layout"}
             got = dict((k, v) for k, v in doc["ok"].items() if k != "general")
-            exp = TF.expected_doc(a["spec"], a.get("main_variant"))
+            exp = TF.expected_doc(self.effective(case), a.get("main_variant"))
             if got != exp:
                 secs = sorted(k for k in set(got) | set(exp) if got.get(k) != exp.get(k))
                 return {"observed": dict((k, got.get(k)) for k in secs), "required": dict((k, exp.get(k)) for k in secs), "kind": "file-facts"}
+            e2 = self.effective_after_load(case)
+            if e2 is not None:
+                d3 = real_out.get("dump3", {})
+                if "ok" not in d3:
+                    return {"observed": {"dump after load and update": d3}, "required": "the updated object can be written", "kind": "update-after-load"}
+                want3 = TF.canon_spec(TF.norm_spec(e2))
+                l3 = real_out.get("load3", {})
+                if "ok" not in l3 or checklib.canon(l3["ok"]) != checklib.canon(want3):
+                    got3 = l3.get("ok") or {}
+                    diff = [k for k in want3 if checklib.canon(got3.get(k) if isinstance(got3, dict) else None) != checklib.canon(want3.get(k))]
+                    return {"observed": dict((k, got3.get(k) if isinstance(got3, dict) else l3) for k in diff) or l3,
+                            "required": dict((k, want3.get(k)) for k in diff), "kind": "update-after-load"}
+                doc3 = real_out.get("doc3", {}).get("ok", {})
+                got3d = dict((k, v) for k, v in doc3.items() if k != "general")
+                exp3 = TF.expected_doc(e2, a.get("main_variant"))
+                if got3d != exp3:
+                    secs = sorted(k for k in set(got3d) | set(exp3) if got3d.get(k) != exp3.get(k))
+                    return {"observed": dict((k, got3d.get(k)) for k in secs), "required": dict((k, exp3.get(k)) for k in secs), "kind": "update-after-load"}
         return None
 
     def nontrivial(self, case, real_out):
@@ -224,6 +390,13 @@ class C04(Prop):
         else:
             d["refused"] += 1
         if op == "tree":
+            cls = case["args"].get("cls")
+            if cls:
+                dist.setdefault("classes", {})[cls] = dist.setdefault("classes", {}).get(cls, 0) + 1
+            for k, v in (case["args"].get("seq") or {}).items():
+                if v and k != "update":
+                    key = "seq_%s" % (k if isinstance(v, bool) or k == "style" else "%s=%s" % (k, v))
+                    d[key] = d.get(key, 0) + 1
             s = case["args"]["spec"]
             allv = list(TF.all_variants(s["variants"]))
             for k, v in (("src", s["tree"]["arch"] == "src"), ("layered", s["is_layered"]), ("dashed_top", any(x["uid"] != x["id"] for x in s["variants"])),
@@ -255,6 +428,44 @@ class C04(Prop):
         if drv is None:
             return []
         fails = []
+        # the adapter's tables against the tables regenerated from the source (equality, both inclusions)
+        import json as _json, os as _os
+        gen = _json.load(open(_os.path.join(checklib.ROOT, "lean", "generated.json")))["tables"]
+        for name, mine in (("TREEINFO_PATH_FIELDS", TF.PATH_FIELDS), ("TREEINFO_VARIANT_TYPES", ["variant", "optional", "addon"])):
+            if list(gen.get(name, [])) != list(mine):
+                fails.append({"case": {"op": "table", "args": {"table": name}}, "observed": gen.get(name), "required": mine, "kind": "adapter-table"})
+        # real files: dump(path) to a missing and to an existing destination, load(path): same bytes / facts as through StringIO
+        import tempfile, shutil
+        tmp = tempfile.mkdtemp(prefix="c04-")
+        try:
+            nfile = 0
+            for i in range(12 if tier == "quick" else 200):
+                inside = [c for c in TF.CLASSES if not c.endswith("!")]        # known-finding / refusal regions run in `cases`
+                spec, mv = TF.gen_class(rng, inside[i % len(inside)], tier) if i % 2 else TF.gen(rng, tier)
+                try:
+                    ti = TF.build(spec)
+                    text = TF.dumps(ti, mv)
+                except Exception:  # noqa
+                    continue
+                path = _os.path.join(tmp, "treeinfo-%d" % i)
+                if i % 3 == 0:
+                    open(path, "w").write("[stale]\nold = content that is longer than nothing\n" * 50)
+                try:
+                    ti.dump(path, main_variant=mv)
+                    on_disk = open(path, newline="").read()
+                    t3 = TF.mod().TreeInfo()
+                    t3.load(path)
+                    same = on_disk == text and checklib.canon(TF.snap(t3)) == checklib.canon(TF.canon_spec(TF.norm_spec(spec)))
+                except Exception as e:  # noqa
+                    on_disk, same = {"err": TF.err_name(e)}, False
+                nfile += 1
+                if not same:
+                    fails.append({"case": {"op": "tree", "args": {"spec": spec, "main_variant": mv}}, "observed": {"file": on_disk if isinstance(on_disk, dict) else on_disk[:400]},
+                                  "required": {"dumps": text[:400]}, "kind": "file-vs-string"})
+                    break
+            ctx["dist"]["real_files"] = nfile
+        finally:
+            shutil.rmtree(tmp, ignore_errors=True)
         n_text = 300 if tier == "quick" else 6000
         n, ok, bad = ini_diff.run(drv, rng, n_text)
         ctx["dist"]["ini_reader_vs_cpython"] = {"texts": n, "accepted": ok, "disagreements": len(bad)}
@@ -283,6 +494,16 @@ class C04(Prop):
             return []
         out = []
         s = case["args"]["spec"]
+        if case["args"].get("seq"):
+            c0 = copy.deepcopy(case)
+            c0["args"].pop("seq")
+            out.append(c0)
+            c1 = copy.deepcopy(case)
+            c1["args"]["seq"] = dict((k, v) for k, v in case["args"]["seq"].items() if k in ("update", "update_when"))
+            if c1["args"]["seq"] != case["args"]["seq"] and c1["args"]["seq"]:
+                out.append(c1)
+            if case["args"]["seq"].get("update"):
+                return out                     # the update refers to the forest shape: shrink the sequence only
 
         def variant(mut):
             c = copy.deepcopy(case)
